@@ -75,6 +75,7 @@ struct TagScope {
 };
 size_t live_blocks(uint8_t tag);                    // live arena blocks with this tag
 size_t live_bytes(uint8_t tag);
+uint64_t alloc_count(uint8_t tag);                   // blocks ever allocated with this tag in this case
 bool is_live(const void* p);                        // p points into a live arena block
 bool is_freed(const void* p);
 void check_access(const void* p, size_t n, bool write); // explicit O-MEM / O-RACE check for harness accesses
